@@ -145,7 +145,8 @@ func (node *DHTNode) Put(key, value []byte, ttl time.Duration) bool {
 	createdAt := node.params.Now()
 	expiresAt := createdAt.Add(ttl)
 	node.mu.Lock()
-	_, added := node.data.Put(key, value, createdAt, expiresAt)
+	// the cache keeps the slice: store a copy, the caller may reuse its buffer (AddPeer does the same)
+	_, added := node.data.Put(key, bytes.Clone(value), createdAt, expiresAt)
 	node.mu.Unlock()
 	return added
 }
@@ -186,7 +187,7 @@ func (node *DHTNode) HandlePut(from p2p.PeerID, req PutReq) (PutRes, error) {
 	createdAt := node.params.Now()
 	expiresAt := createdAt.Add(ttl)
 	node.mu.Lock()
-	evicted, added := node.data.Put(req.Key, req.Value, createdAt, expiresAt)
+	evicted, added := node.data.Put(req.Key, bytes.Clone(req.Value), createdAt, expiresAt)
 	node.mu.Unlock()
 	return PutRes{
 		// (a node without a data cache stores nothing: Put reports neither an addition nor a victim)
